@@ -117,9 +117,15 @@ def collapsePairs : Str → Str
 def trimSpaces (s : Str) : Str :=
   ((s.dropWhile (· == 32)).reverse.dropWhile (· == 32)).reverse
 
+/-- the replacement repeated while two spaces in a row remain: every run becomes one space -/
+def collapseRuns : Str → Str
+  | [] => []
+  | c :: rest => if c == 32 && rest.head? == some 32 then collapseRuns rest else c :: collapseRuns rest
+
 /-- `CleanSpace` on a string that contains no white space other than U+0020 (which is what the
-    normalisation leaves): the replacement is applied exactly twice, as in the code -/
-def cleanSpace (s : Str) : Str := trimSpaces (collapsePairs (collapsePairs s))
+    normalisation leaves): the replacement is repeated until no two spaces are adjacent, as in
+    the code -/
+def cleanSpace (s : Str) : Str := trimSpaces (collapseRuns s)
 
 def cleanName (s : Str) : Str := cleanSpace (normalise s 0)
 
